@@ -2,6 +2,7 @@ import MCHap.Proofs.PedigreeAllele
 import MCHap.Proofs.PedigreeEnum
 import MCHap.Proofs.MH
 import MCHap.Properties.C02
+import MCHap.Properties.C17
 
 /-!
 # C18 — the pedigree sampler moves are stationary at the joint pedigree posterior
@@ -594,6 +595,41 @@ theorem ped_gibbs_old_weights_balanced (P : Ped) (s : PedState) (t : ℕ) (pre p
   intro T
   have := trio_allele_balanced_old T x tau h1 h2 h3 (by rw [h4, h5]; exact hfs) (hp x hxn) (hq x hxn)
   rw [this, h6]; ring
+
+/-! ### the joint of the model is the joint of the C17 specification -/
+
+/-- the joint built from the model of `trio_log_pmf` is literally the joint built from the
+    inheritance pmf of C17 (`trioPmf`, which sums to one: `C17.trio_sum_one`) -/
+theorem joint_code_eq_spec (P : Ped) (s : PedState) (h : ∀ i, i < P.size → TrioWF (trioOf P s i)) :
+    jointWith trioPmfCode P s = joint P s := by
+  unfold joint jointWith
+  apply congrArg
+  apply List.map_congr_left
+  intro i hi
+  rw [C17.trioCode_eq_spec _ (h i (List.mem_range.mp hi))]
+
+/-- **Gibbs = exact full conditional of the joint pedigree posterior `J = ∏ lik_i · trioPmf_i`** (the
+    statement of `ped_gibbs_is_conditional` with the specification-level joint) -/
+theorem ped_gibbs_is_conditional_joint (P : Ped) (s : PedState) (t : ℕ) (pre post : List ℕ) (c tp tq : ℕ)
+    (ht : t < P.size) (hts : t < s.length) (hself : isChild P t t = false)
+    (hg : s.getD t [] = pre ++ c :: post)
+    (htau : P.tau.getD t (0, 0) = (tp, tq))
+    (hlen : (pre ++ post).length + 1 = tp + tq) (hal : ∀ a ∈ pre ++ post, a < P.n)
+    (hfs : P.n ≤ P.freqs.length)
+    (hp : ∀ x, x < P.n → let T := trioOf P (setAllele s t pre.length x) t
+        T.validP = true → ParentWF T.dp T.pp T.tp T.lp T.d.length)
+    (hq : ∀ x, x < P.n → let T := trioOf P (setAllele s t pre.length x) t
+        T.validQ = true → ParentWF T.dq T.pq T.tq T.lq T.d.length)
+    (hR : restWith trioPmfCode P s t ≠ 0)
+    (hwf : ∀ x, x < P.n → ∀ i, i < P.size → TrioWF (trioOf P (setAllele s t pre.length x) i)) :
+    gibbsProbabilities P s t pre.length
+      = normalise ((List.range P.n).map (fun x =>
+          joint P (setAllele s t pre.length x) * (MH.factProd (pre ++ x :: post) : ℚ))) := by
+  rw [ped_gibbs_is_conditional P s t pre post c tp tq ht hts hself hg htau hlen hal hfs hp hq hR]
+  apply congrArg
+  apply List.map_congr_left
+  intro x hx
+  rw [joint_code_eq_spec P _ (hwf x (List.mem_range.mp hx))]
 
 /-! ### concrete instances: non-vacuity, and the defect of the old weights -/
 
